@@ -96,6 +96,8 @@ class Agg:
             self.planned[f["kind"]] += 1
         if rec.get("crash"):
             self.planned["CRASH"] += 1
+        if rec.get("crash2"):
+            self.planned["CRASH"] += 1
         for k, v in w.stats["fired"].items():
             self.fired[k] += v
         if w.stats["crashes"]:
@@ -113,7 +115,7 @@ class Agg:
             self.ilv.add(mix(tuple(s.interleave_sig)) & 0xFFFFFFFFFFFF)
         fired_total = sum(w.stats["fired"].values()) + w.stats["crashes"]
         hist_sig = mix(json.dumps(rec["ops"], sort_keys=True), json.dumps(rec.get("faults"), sort_keys=True),
-                       json.dumps(rec.get("crash"), sort_keys=True), tuple(s.interleave_sig),
+                       json.dumps([rec.get("crash"), rec.get("crash2")], sort_keys=True), tuple(s.interleave_sig),
                        json.dumps(kn, sort_keys=True))
         if w.stats["misses"] >= 1 and (w.stats["evictions"] or fired_total or s.switches):
             self.nontrivial.add(hist_sig & 0xFFFFFFFFFFFF)
@@ -154,7 +156,7 @@ def compact_sample(rec):
                   + ("+pp" if k["pp"] else "") + ("+val" if k["val"] else "")) for k in kn["keys"]],
         "max_bytes": kn["max_bytes"], "parallel": kn["parallel"], "clock": kn["clock"], "sched": kn["sched"],
         "ops": [{k: v for k, v in o.items() if k != "dt"} for o in rec["ops"][:20]],
-        "faults": rec.get("faults"), "crash": rec.get("crash"),
+        "faults": rec.get("faults"), "crash": rec.get("crash"), "crash2": rec.get("crash2"),
     }
 
 
